@@ -313,6 +313,14 @@ func c38Init() error {
 	return nil
 }
 
+// string values that need care when they are written into YAML
+func c38Special(r *rand.Rand) string {
+	specials := []string{`back\\slash`, `C:\\dir\\name`, `say "hi"`, `it's`, `both " and '`, `#hash first`, `a #comment`, `key: value`, `colon:`,
+		` leading space`, `trailing space `, "line1\nline2", "tab\there", `{brace}`, `[bracket]`, `*star`, `&amp`, `!bang`, `%percent`, `@at`, "`backtick`",
+		`~tilde`, `-dash`, `? q`, `| pipe`, `> gt`, `end\\`, `"quoted"`, `'single'`, `\\"mix'`}
+	return specials[r.Intn(len(specials))] + strconv.Itoa(r.Intn(9))
+}
+
 func c38Clamp(f c38Field, v float64) float64 {
 	if f.hasMax && v > f.max {
 		v = f.max
@@ -423,6 +431,9 @@ func c38GenValue(r *rand.Rand, f c38Field, class string) (string, bool) {
 		case "D":
 			return q(f.mdef), true
 		}
+		if r.Intn(100) < 45 {
+			return q(c38Special(r)), true
+		}
 		return q(fmt.Sprintf("val%d", r.Intn(90))), true
 	case "stringarray":
 		if class == "Z" {
@@ -437,7 +448,11 @@ func c38GenValue(r *rand.Rand, f c38Field, class string) (string, bool) {
 			case "url":
 				es = append(es, q(fmt.Sprintf("http://peer%d.example.com:8081", r.Intn(9))))
 			default:
-				es = append(es, q(fmt.Sprintf("item%d", r.Intn(90))))
+				if f.elem != "" && r.Intn(100) < 30 {
+					es = append(es, q(c38Special(r)))
+				} else {
+					es = append(es, q(fmt.Sprintf("item%d", r.Intn(90))))
+				}
 			}
 		}
 		return "[" + strings.Join(es, ", ") + "]", true
@@ -460,6 +475,28 @@ func c38Gen(r *rand.Rand, tier string, i int) any {
 		class := []string{"D", "Z", "Z", "N", "N"}[r.Intn(5)]
 		if v, ok := c38GenValue(r, f, class); ok {
 			in.Settings = append(in.Settings, c38Setting{V1Key: f.v1key, Val: v, Class: class})
+		}
+	}
+	// most files carry at least one free-text setting whose value needs escaping when written into YAML
+	if r.Intn(10) < 7 {
+		var free []c38Field
+		have := map[string]bool{}
+		for _, st := range in.Settings {
+			have[st.V1Key] = true
+		}
+		for _, f := range c38Fields {
+			if f.typ == "string" && len(f.choices) == 0 && !f.curated && !have[f.v1key] {
+				free = append(free, f)
+			}
+		}
+		if len(free) > 0 {
+			f := free[r.Intn(len(free))]
+			hard := []string{`back\\slash`, `C:\\dir\\name`, `both " and '`, `\\"mix'`, `end\\`, "line1\nline2", "tab\there", `it's "quoted"`}
+			v := hard[r.Intn(len(hard))] + strconv.Itoa(r.Intn(9))
+			if r.Intn(3) == 0 {
+				v = c38Special(r)
+			}
+			in.Settings = append(in.Settings, c38Setting{V1Key: f.v1key, Val: fmt.Sprintf("%q", v), Class: "N"})
 		}
 	}
 	if r.Intn(10) < 7 { // nearly every v1 file has it; deprecated in v2
